@@ -171,7 +171,7 @@ var pureLibPrefixes = []string{
 	"fmt.Sprintf", "fmt.Sprint", "fmt.Errorf", "errors.New", "strconv.", "strings.", "encoding/base64.", "(*encoding/base64.Encoding).",
 	"google.golang.org/grpc/status.Error", "google.golang.org/grpc/status.Errorf", "google.golang.org/grpc/status.Code",
 	"google.golang.org/grpc/status.FromError", "google.golang.org/grpc/status.Convert", "(*google.golang.org/grpc/status.Status).",
-	"google.golang.org/protobuf/proto.Marshal", "math.", "unicode.", "unicode/utf8.", "path.", "crypto/md5.", "hash/fnv.", "encoding/hex.",
+	"google.golang.org/protobuf/proto.Marshal", "(google.golang.org/protobuf/reflect/protoreflect.", "math.", "unicode.", "unicode/utf8.", "path.", "crypto/md5.", "hash/fnv.", "encoding/hex.",
 	"(time.Duration).", "time.Duration.", "(time.Time).", "time.Time.", "time.Unix", "time.Date",
 }
 
@@ -298,6 +298,36 @@ func init() {
 		c.sc.Decl("errcode", "(declare-fun |errcode| (Iface) Int)")
 		r := Val{T: fn.Signature.Results().At(0).Type(), E: c.sc.Define("code", sInt, Ite("(= (i-tag "+args[0].E+") 0)", "0", "(|errcode| "+args[0].E+")"))}
 		return &r
+	}
+	// time.Time is an instant in nanoseconds (an unbounded integer); Sub saturates like the library
+	preludeTable["(*google.golang.org/protobuf/types/known/timestamppb.Timestamp).AsTime"] = func(c *FnCtx, fr *Frame, st *State, fn *ssa.Function, args []Val, pos token.Pos) *Val {
+		x := args[0]
+		c.nilCheck(st, x.E, pos)
+		ts := x.T.Underlying().(*types.Pointer).Elem()
+		st0 := ts.Underlying().(*types.Struct)
+		var secs, nanos string
+		for k := 0; k < st0.NumFields(); k++ {
+			switch st0.Field(k).Name() {
+			case "Seconds":
+				secs = "(select " + c.heapGet(st, c.fieldHeap(ts, k)) + " " + x.E + ")"
+			case "Nanos":
+				nanos = "(select " + c.heapGet(st, c.fieldHeap(ts, k)) + " " + x.E + ")"
+			}
+		}
+		return &Val{T: fn.Signature.Results().At(0).Type(), E: c.sc.Define("instant", sInt, "(+ (* "+secs+" 1000000000) "+nanos+")")}
+	}
+	timeCmp := func(op string) preludeFn {
+		return func(c *FnCtx, fr *Frame, st *State, fn *ssa.Function, args []Val, pos token.Pos) *Val {
+			return &Val{T: tBool, E: c.sc.Define("tcmp", sBool, "("+op+" "+args[0].E+" "+args[1].E+")")}
+		}
+	}
+	preludeTable["(time.Time).Before"] = timeCmp("<")
+	preludeTable["(time.Time).After"] = timeCmp(">")
+	preludeTable["(time.Time).Equal"] = timeCmp("=")
+	preludeTable["(time.Time).Sub"] = func(c *FnCtx, fr *Frame, st *State, fn *ssa.Function, args []Val, pos token.Pos) *Val {
+		d := "(- " + args[0].E + " " + args[1].E + ")"
+		e := "(ite (> " + d + " 9223372036854775807) 9223372036854775807 (ite (< " + d + " (- 9223372036854775808)) (- 9223372036854775808) " + d + "))"
+		return &Val{T: fn.Signature.Results().At(0).Type(), E: c.sc.Define("tsub", sInt, e)}
 	}
 	preludeTable["math.Floor"] = func(c *FnCtx, fr *Frame, st *State, fn *ssa.Function, args []Val, pos token.Pos) *Val {
 		x := args[0].E
